@@ -269,6 +269,25 @@ def check_struct(kinds, res: JobResult, tier, align=False, compiled=False, endia
                     issue("inplace:default-changed", f"after an in-place assignment inside field {s_[0]} of one default instance, a new default instance is {impl.norm(fresh)}")
             except Exception as e:  # noqa: BLE001
                 issue("inplace:raises", f"field {s_[0]}: {impl.exc_sig(e)} {e!r}")
+            # ... and the same for instances constructed in other ways that leave this field unspecified: "unspecified fields take the type's zero value",
+            # whatever was done to an instance constructed the same way before
+            forms = [("every field passed as None", lambda: T(**{n_: None for n_ in raw_names}))]
+            if slots[0][2] in ("u8", "u16") and s_[0] != slots[0][0]:
+                forms.append(("one positional value", lambda: T(1)))
+                forms.append(("one keyword value", lambda: T(**{slots[0][3]: 1})))
+            for fname_, mkf in forms:
+                try:
+                    ref_ = impl.norm(mkf())
+                    d2 = mkf()
+                    inplace[s_[2]][0](d2, s_[0])
+                    again = impl.norm(mkf())
+                    res.evaluations += 1
+                    if not same(again, ref_):
+                        issue("inplace:default-changed", f"constructed with {fname_}: after an in-place assignment inside the unspecified field {s_[0]} of one instance, the next instance constructed the same way is {again} (first: {ref_})")
+                        break
+                except Exception as e:  # noqa: BLE001
+                    issue("inplace:raises", f"constructed with {fname_}, field {s_[0]}: {impl.exc_sig(e)} {e!r}")
+                    break
     # ---- a default instance equals the instance parsed from all-zero bytes; a constructed instance equals the one parsed from its dump
     try:
         size = T.size
